@@ -539,8 +539,8 @@ class Exec:
                 else: outs.extend(self.contains(s1, PSeq(*seq_of(c, s1)), item, ln))
             return outs
         if isinstance(c, PSeq):
-            arr, n = seq_of(c, st); iv = to_val(item, st); j = fresh('j', IntSort())
-            return [(st, Exists([j], And(0 <= j, j < n, py_eq(iv, arr[j]))))]
+            arr, n = seq_of(c, st); iv = to_val(item, st)
+            return [(st, seq_has(arr, n, iv))]
         if isinstance(c, ZV) and c.kind == 'str' and isinstance(item, PConst) and isinstance(item.obj, str):
             return [(st, z3.Contains(c.z, StringVal(item.obj)))]
         raise Unsupported(f'`in` on {c!r}')
